@@ -3,7 +3,7 @@ package main
 // C16 — Save / Create+OnConflict / FirstOrInit / FirstOrCreate converge to the documented state,
 // independent of Session/WithContext calls in the chain.
 //
-// Two suites:
+// Suites (reuse / reuse-tie live in c16_reuse.go, the partial-insert generator and the sql suite in c16_partial.go):
 //   tie  — correspondence: the real finisher on SQLite vs the Lean model (`c16.run`) on the same
 //          table / chain / finisher: table after (all columns, timestamps as 0|NOW), returned
 //          record, RowsAffected, error class.
@@ -39,6 +39,9 @@ type C16Base struct {
 	Rank      int    `gorm:"default:(8)"`
 	CreatedAt time.Time
 	UpdatedAt time.Time
+	// `default:null`: HasDefaultValue, DefaultValueInterface == nil, DefaultValue "null" — left out of the INSERT when
+	// zero, but (unlike Rank) part of the UpdateAll expansion when it IS inserted
+	Note string `gorm:"default:null"`
 }
 
 type C16U struct {
@@ -59,18 +62,19 @@ const (
 	c16Rank
 	c16Created
 	c16Updated
+	c16Note
 	c16Deleted
 )
 
 const c16F3ID = "F3-C16-clone-drops-attrs-assigns"
 
-var c16Cols = []string{"id", "name", "age", "email", "code", "rank", "created_at", "updated_at", "deleted_at"}
-var c16IsStr = []bool{false, true, false, true, true, false, false, false, false}
-var c16IsTime = []bool{false, false, false, false, false, false, true, true, true}
+var c16Cols = []string{"id", "name", "age", "email", "code", "rank", "created_at", "updated_at", "note", "deleted_at"}
+var c16IsStr = []bool{false, true, false, true, true, false, false, false, true, false}
+var c16IsTime = []bool{false, false, false, false, false, false, true, true, false, true}
 
 func c16Kinds(soft bool) []interface{} {
 	k := []interface{}{[]interface{}{"pk"}, []interface{}{"plain"}, []interface{}{"plain"}, []interface{}{"plain"},
-		[]interface{}{"cd", 7}, []interface{}{"dd", 8}, []interface{}{"ac"}, []interface{}{"au"}}
+		[]interface{}{"cd", 7}, []interface{}{"dd", 8}, []interface{}{"ac"}, []interface{}{"au"}, []interface{}{"dn"}}
 	if soft {
 		k = append(k, []interface{}{"sd"})
 	}
@@ -79,9 +83,9 @@ func c16Kinds(soft bool) []interface{} {
 
 func c16N(soft bool) int {
 	if soft {
-		return 9
+		return 10
 	}
-	return 8
+	return 9
 }
 
 func (C16U) TableName() string { return "c16_u" }
@@ -145,11 +149,11 @@ func c16Val(c, n int) interface{} {
 
 func c16Mk(soft bool, r []int) interface{} {
 	b := C16Base{ID: uint(r[0]), Name: c16EncS(r[1]), Age: r[2], Email: c16EncS(r[3]), Code: c16EncS(r[4]), Rank: r[5],
-		CreatedAt: c16EncT(r[6]), UpdatedAt: c16EncT(r[7])}
+		CreatedAt: c16EncT(r[6]), UpdatedAt: c16EncT(r[7]), Note: c16EncS(r[8])}
 	if soft {
 		s := &C16S{C16Base: b}
-		if r[8] != 0 {
-			s.DeletedAt = gorm.DeletedAt{Time: c16EncT(r[8]), Valid: true}
+		if r[c16Deleted] != 0 {
+			s.DeletedAt = gorm.DeletedAt{Time: c16EncT(r[c16Deleted]), Valid: true}
 		}
 		return s
 	}
@@ -165,7 +169,7 @@ func c16Rd(v interface{}) []int {
 	case *C16S:
 		b = x.C16Base
 	}
-	out = append(out, int(b.ID), c16DecS(b.Name), b.Age, c16DecS(b.Email), c16DecS(b.Code), b.Rank, c16DecT(b.CreatedAt), c16DecT(b.UpdatedAt))
+	out = append(out, int(b.ID), c16DecS(b.Name), b.Age, c16DecS(b.Email), c16DecS(b.Code), b.Rank, c16DecT(b.CreatedAt), c16DecT(b.UpdatedAt), c16DecS(b.Note))
 	if s, ok := v.(*C16S); ok {
 		d := 0
 		if s.DeletedAt.Valid {
@@ -195,16 +199,24 @@ type C16R struct {
 }
 
 type C16St struct {
-	K    string `json:"k"` // where | oc | attrs | assign | session | ctx
+	K    string `json:"k"` // where | oc | attrs | assign | session | ctx | model | select | omit
 	W    *C16W  `json:"w,omitempty"`
 	Init *C16I  `json:"init,omitempty"`
 	Rule *C16R  `json:"rule,omitempty"`
+	Cols []int  `json:"cols,omitempty"` // select | omit: the columns named
 }
 
+// finishers:
+//   save | save2 | create | foi | foc         one struct
+//   cmap    Model(&T{}).Create(map[string]interface{}{…})      keys = Cols, values = Row[c]
+//   cmaps   Model(&T{}).Create(&[]map[string]interface{}{…})   keys = Cols (same for every element), values = Many[i][c]
+//   cslice  Create(&[]T{…Many…})          sslice  Save(&[]T{…Many…})
 type C16F struct {
-	K   string `json:"k"` // save | create | foi | foc
-	Row []int  `json:"row,omitempty"`
-	Inl *C16W  `json:"inl,omitempty"`
+	K    string  `json:"k"`
+	Row  []int   `json:"row,omitempty"`
+	Inl  *C16W   `json:"inl,omitempty"`
+	Cols []int   `json:"cols,omitempty"`
+	Many [][]int `json:"many,omitempty"`
 }
 
 type C16P struct {
@@ -260,7 +272,7 @@ func (e *c16Env) setTable(soft bool, rows [][]int) {
 			args := make([]interface{}, len(cols))
 			for c := range cols {
 				switch {
-				case c16IsTime[c] && r[c] == 0 && c == c16Deleted:
+				case r[c] == 0 && (c == c16Deleted || c == c16Note):
 					args[c] = nil
 				default:
 					args[c] = c16Val(c, r[c])
@@ -425,6 +437,123 @@ type c16RealOut struct {
 	Writes int // INSERT/UPDATE/DELETE statements that reached the driver
 }
 
+// chain applies the chain steps to handle h
+func (e *c16Env) chain(h *gorm.DB, soft bool, steps []C16St) *gorm.DB {
+	for i := range steps {
+		s := &steps[i]
+		switch s.K {
+		case "where":
+			q, a := s.W.args(soft, e.db)
+			h = h.Where(q, a...)
+		case "oc":
+			h = h.Clauses(s.Rule.clause())
+		case "attrs":
+			if s.Init == nil {
+				h = h.Attrs()
+			} else {
+				h = h.Attrs(s.Init.args(soft)...)
+			}
+		case "assign":
+			if s.Init == nil {
+				h = h.Assign()
+			} else {
+				h = h.Assign(s.Init.args(soft)...)
+			}
+		case "session":
+			h = h.Session(&gorm.Session{})
+		case "ctx":
+			h = h.WithContext(WithMarker(context.Background(), "c16"))
+		case "model":
+			h = h.Model(c16Mk(soft, make([]int, c16N(soft))))
+		case "select", "omit":
+			names := make([]interface{}, len(s.Cols))
+			for i, c := range s.Cols {
+				names[i] = c16Cols[c]
+			}
+			if s.K == "select" {
+				h = h.Select(names[0], names[1:]...)
+			} else {
+				strs := make([]string, len(names))
+				for i := range names {
+					strs[i] = names[i].(string)
+				}
+				h = h.Omit(strs...)
+			}
+		}
+	}
+	return h
+}
+
+func c16MkSlice(soft bool, many [][]int) interface{} {
+	if soft {
+		out := make([]C16S, len(many))
+		for i, r := range many {
+			out[i] = *(c16Mk(soft, r).(*C16S))
+		}
+		return &out
+	}
+	out := make([]C16U, len(many))
+	for i, r := range many {
+		out[i] = *(c16Mk(soft, r).(*C16U))
+	}
+	return &out
+}
+
+func c16MapOf(cols []int, r []int) map[string]interface{} {
+	m := map[string]interface{}{}
+	for _, c := range cols {
+		if r[c] == 0 && (c == c16Deleted || c == c16Note) {
+			m[c16Cols[c]] = nil
+		} else {
+			m[c16Cols[c]] = c16Val(c, r[c])
+		}
+	}
+	return m
+}
+
+// finisher calls the finisher f on handle h; returns the caller's value and the result handle
+func (e *c16Env) finisher(h *gorm.DB, soft bool, f *C16F) (dest interface{}, res *gorm.DB) {
+	switch f.K {
+	case "save":
+		dest = c16Mk(soft, f.Row)
+		res = h.Save(dest)
+	case "save2":
+		// db.Save(&v); db.Save(&v) — judged by the reference of ONE Save (idempotence)
+		dest = c16Mk(soft, f.Row)
+		if res = h.Save(dest); res.Error == nil {
+			res = h.Save(dest)
+		}
+	case "create":
+		dest = c16Mk(soft, f.Row)
+		res = h.Create(dest)
+	case "cmap":
+		res = h.Create(c16MapOf(f.Cols, f.Row))
+	case "cmaps":
+		ms := make([]map[string]interface{}, len(f.Many))
+		for i, r := range f.Many {
+			ms[i] = c16MapOf(f.Cols, r)
+		}
+		res = h.Create(&ms)
+	case "cslice":
+		res = h.Create(c16MkSlice(soft, f.Many))
+	case "sslice":
+		res = h.Save(c16MkSlice(soft, f.Many))
+	case "foi", "foc":
+		dest = c16Mk(soft, make([]int, c16N(soft)))
+		var conds []interface{}
+		if f.Inl != nil {
+			q, a := f.Inl.args(soft, e.db)
+			conds = append([]interface{}{q}, a...)
+		}
+		if f.K == "foi" {
+			res = h.FirstOrInit(dest, conds...)
+		} else {
+			res = h.FirstOrCreate(dest, conds...)
+		}
+	}
+	return
+}
+
 // runReal executes the program on the real code from the given table state.
 func (e *c16Env) runReal(p *C16P) (out c16RealOut) {
 	e.setTable(p.Soft, p.Rows)
@@ -448,73 +577,28 @@ func (e *c16Env) runReal(p *C16P) (out c16RealOut) {
 			out.Rows = e.dump(p.Soft)
 		}
 	}()
-	h := e.db
-	for i := range p.Steps {
-		s := &p.Steps[i]
-		switch s.K {
-		case "where":
-			q, a := s.W.args(p.Soft, e.db)
-			h = h.Where(q, a...)
-		case "oc":
-			h = h.Clauses(s.Rule.clause())
-		case "attrs":
-			if s.Init == nil {
-				h = h.Attrs()
-			} else {
-				h = h.Attrs(s.Init.args(p.Soft)...)
-			}
-		case "assign":
-			if s.Init == nil {
-				h = h.Assign()
-			} else {
-				h = h.Assign(s.Init.args(p.Soft)...)
-			}
-		case "session":
-			h = h.Session(&gorm.Session{})
-		case "ctx":
-			h = h.WithContext(WithMarker(context.Background(), "c16"))
-		}
+	h := e.chain(e.db, p.Soft, p.Steps)
+	dest, res := e.finisher(h, p.Soft, &p.Fin)
+	if dest != nil {
+		out.Val = c16Rd(dest)
 	}
-	var dest interface{}
-	var res *gorm.DB
-	switch p.Fin.K {
-	case "save":
-		dest = c16Mk(p.Soft, p.Fin.Row)
-		res = h.Save(dest)
-	case "save2":
-		// db.Save(&v); db.Save(&v) — judged by the reference of ONE Save (idempotence)
-		dest = c16Mk(p.Soft, p.Fin.Row)
-		if res = h.Save(dest); res.Error == nil {
-			res = h.Save(dest)
-		}
-	case "create":
-		dest = c16Mk(p.Soft, p.Fin.Row)
-		res = h.Create(dest)
-	case "foi", "foc":
-		dest = c16Mk(p.Soft, make([]int, c16N(p.Soft)))
-		var conds []interface{}
-		if p.Fin.Inl != nil {
-			q, a := p.Fin.Inl.args(p.Soft, e.db)
-			conds = append([]interface{}{q}, a...)
-		}
-		if p.Fin.K == "foi" {
-			res = h.FirstOrInit(dest, conds...)
-		} else {
-			res = h.FirstOrCreate(dest, conds...)
-		}
-	}
-	out.Val = c16Rd(dest)
 	out.RA = res.RowsAffected
 	out.Err = c16ErrClass(res.Error)
+	out.Writes = e.writes()
+	out.Rows = e.dump(p.Soft)
+	return
+}
+
+// writes = INSERT/UPDATE/DELETE statements that reached the driver since the last Reset
+func (e *c16Env) writes() (n int) {
 	for _, ev := range e.rec.Snapshot() {
 		if ev.Kind == "exec" || ev.Kind == "stmt_exec" || ev.Kind == "query" || ev.Kind == "stmt_query" {
 			u := strings.ToUpper(strings.TrimSpace(ev.SQL))
 			if strings.HasPrefix(u, "INSERT") || strings.HasPrefix(u, "UPDATE") || strings.HasPrefix(u, "DELETE") || strings.HasPrefix(u, "REPLACE") {
-				out.Writes++
+				n++
 			}
 		}
 	}
-	out.Rows = e.dump(p.Soft)
 	return
 }
 
@@ -614,11 +698,19 @@ func (r *C16R) J() interface{} {
 	return []interface{}{"updates", as}
 }
 
-func (p *C16P) leanOp() []interface{} {
-	steps := []interface{}{}
-	for i := range p.Steps {
-		s := &p.Steps[i]
+// c16StepsJ: chain steps in protocol form; Model/Select/Omit are not chain steps of the model (Select/Omit reach it as
+// the `src` of the finisher), sel/omit collect what they named
+func c16StepsJ(in []C16St) (steps []interface{}, sel, omit []int) {
+	steps = []interface{}{}
+	sel, omit = []int{}, []int{}
+	for i := range in {
+		s := &in[i]
 		switch s.K {
+		case "model":
+		case "select": // chainable_api.go Select / Omit REPLACE Statement.Selects / Omits
+			sel = append([]int{}, s.Cols...)
+		case "omit":
+			omit = append([]int{}, s.Cols...)
 		case "where":
 			steps = append(steps, []interface{}{"where", s.W.condsJ()})
 		case "oc":
@@ -631,28 +723,49 @@ func (p *C16P) leanOp() []interface{} {
 			steps = append(steps, []interface{}{s.K})
 		}
 	}
-	var fin []interface{}
-	switch p.Fin.K {
-	case "save", "create":
-		fin = []interface{}{p.Fin.K, p.Fin.Row}
-	default:
-		inl := []interface{}{}
-		if p.Fin.Inl != nil {
-			inl = p.Fin.Inl.condsJ()
+	return
+}
+
+func (f *C16F) J(sel, omit []int) []interface{} {
+	switch f.K {
+	case "save":
+		return []interface{}{"save", f.Row}
+	case "create":
+		if len(sel)+len(omit) > 0 {
+			return []interface{}{"createfrom", []interface{}{"struct", sel, omit}, f.Row}
 		}
-		fin = []interface{}{p.Fin.K, inl}
+		return []interface{}{"create", f.Row}
+	case "cmap":
+		return []interface{}{"createfrom", []interface{}{"map", f.Cols}, f.Row}
 	}
+	inl := []interface{}{}
+	if f.Inl != nil {
+		inl = f.Inl.condsJ()
+	}
+	return []interface{}{f.K, inl}
+}
+
+func c16NextOf(rows [][]int) int {
 	next := 1
-	for _, r := range p.Rows {
+	for _, r := range rows {
 		if r[0] >= next {
 			next = r[0] + 1
 		}
 	}
-	rows := make([]interface{}, len(p.Rows))
-	for i, r := range p.Rows {
+	return next
+}
+
+func c16RowsJ(in [][]int) []interface{} {
+	rows := make([]interface{}, len(in))
+	for i, r := range in {
 		rows[i] = r
 	}
-	return []interface{}{"c16.run", "gen", c16Kinds(p.Soft), rows, next, steps, fin}
+	return rows
+}
+
+func (p *C16P) leanOp() []interface{} {
+	steps, sel, omit := c16StepsJ(p.Steps)
+	return []interface{}{"c16.run", "gen", c16Kinds(p.Soft), c16RowsJ(p.Rows), c16NextOf(p.Rows), steps, p.Fin.J(sel, omit)}
 }
 
 // ---- generators ------------------------------------------------------------------------------------
@@ -670,6 +783,9 @@ func c16GenRow(rng *rand.Rand, soft bool, key int) []int {
 	}
 	if rng.Intn(2) == 0 {
 		r[c16Rank] = []int{0, 6, 8}[rng.Intn(3)]
+	}
+	if rng.Intn(2) == 0 {
+		r[c16Note] = []int{0, 3, 5}[rng.Intn(3)]
 	}
 	return r
 }
@@ -776,7 +892,7 @@ func c16GenRule(rng *rand.Rand, soft bool) *C16R {
 	case 1:
 		return &C16R{Kind: "all"}
 	}
-	cols := []int{c16Name, c16Age, c16Email, c16Code, c16Rank, c16Updated}
+	cols := []int{c16Name, c16Age, c16Email, c16Code, c16Rank, c16Updated, c16Note}
 	if soft {
 		cols = append(cols, c16Deleted)
 	}
@@ -801,7 +917,9 @@ func c16GenLogical(rng *rand.Rand, rich bool) *C16P {
 
 func c16GenLogicalOn(rng *rand.Rand, rich bool, soft bool, rows [][]int) *C16P {
 	p := &C16P{Soft: soft, Rows: rows}
-	switch k := rng.Intn(10); {
+	switch k := rng.Intn(13); {
+	case k >= 10:
+		c16GenPartial(rng, p)
 	case k < 2:
 		p.Fin = C16F{K: "save", Row: c16GenRow(rng, p.Soft, rng.Intn(c16Keys+1))}
 		if !rich && rng.Intn(2) == 0 {
@@ -878,16 +996,34 @@ func (p *C16P) without(drop func(C16St) bool) *C16P {
 
 func (p *C16P) key() string { return canon(p) }
 
+// leanable: the program is inside the Lean model's domain (multi-row statements are judged by the e2e oracle only)
+func (p *C16P) leanable() bool {
+	switch p.Fin.K {
+	case "cmaps", "cslice", "sslice", "save2":
+		return false
+	}
+	return true
+}
+
 func (p *C16P) collides() bool {
 	// a written/queried key or condition meets an existing row
 	if len(p.Rows) == 0 {
 		return false
 	}
 	switch p.Fin.K {
-	case "save", "save2", "create":
+	case "save", "save2", "create", "cmap":
 		for _, r := range p.Rows {
 			if r[0] == p.Fin.Row[0] {
 				return true
+			}
+		}
+		return false
+	case "cmaps", "cslice", "sslice":
+		for _, r := range p.Rows {
+			for _, m := range p.Fin.Many {
+				if r[0] == m[0] {
+					return true
+				}
 			}
 		}
 		return false
@@ -898,6 +1034,14 @@ func (p *C16P) collides() bool {
 // ---- suite 1: correspondence --------------------------------------------------------------------
 
 func c16CompareTie(r *Result, p *C16P, real c16RealOut, leanRaw json.RawMessage) {
+	r.CorrCompared++
+	if ok, obs, exp, note := c16TieDiff(p, real, leanRaw); !ok {
+		r.Violate(Violation{Kind: "correspondence", Suite: "tie", Input: p, Observed: obs, Expected: exp, Note: note})
+	}
+}
+
+// c16TieDiff compares the real outcome of p with the model's answer
+func c16TieDiff(p *C16P, real c16RealOut, leanRaw json.RawMessage) (bool, interface{}, interface{}, string) {
 	var m struct {
 		Rows [][]int `json:"rows"`
 		Val  []int   `json:"val"`
@@ -905,23 +1049,28 @@ func c16CompareTie(r *Result, p *C16P, real c16RealOut, leanRaw json.RawMessage)
 		Err  string  `json:"err"`
 	}
 	if err := json.Unmarshal(leanRaw, &m); err != nil {
-		r.Violate(Violation{Kind: "correspondence", Suite: "tie", Input: p, Observed: string(leanRaw), Expected: "model output", Note: "model rejected the op"})
-		return
+		return false, string(leanRaw), "model output", "model rejected the op"
 	}
 	if m.Rows == nil {
 		m.Rows = [][]int{}
 	}
 	obs := C16O{Rows: real.Rows, Val: real.Val, RA: real.RA, Err: real.Err}
 	exp := C16O{Rows: m.Rows, Val: m.Val, RA: m.RA, Err: m.Err}
-	if exp.Err != "ok" {
-		// on a driver error only table, RowsAffected and error class are compared
+	if exp.Err != "ok" || p.Fin.K == "cmap" {
+		// on a driver error only table, RowsAffected and error class are compared; a map value is not read back
 		obs.Val, exp.Val = nil, nil
 	}
-	r.CorrCompared++
-	if canon(obs) != canon(exp) {
-		r.Violate(Violation{Kind: "correspondence", Suite: "tie", Input: p, Observed: obs, Expected: exp,
-			Note: "real finisher vs Model.Upsert.runChain (table, record, RowsAffected, error class)"})
+	if obs.Val != nil && exp.Val != nil && p.Fin.K != "foi" && p.Fin.K != "foc" && len(obs.Val) > c16Note && len(exp.Val) > c16Note {
+		// `note` read back through RETURNING: a NULL leaves the Go field untouched while '' overwrites it
+		// (schema/field.go string setter); the value abstraction identifies NULL and '' — not compared, not judged
+		obs.Val = append([]int(nil), obs.Val...)
+		exp.Val = append([]int(nil), exp.Val...)
+		obs.Val[c16Note], exp.Val[c16Note] = 0, 0
 	}
+	if canon(obs) != canon(exp) {
+		return false, obs, exp, "real finisher vs Model.Upsert.runChain (table, record, RowsAffected, error class)"
+	}
+	return true, nil, nil, ""
 }
 
 func c16TieSuite(r *Result, rng *rand.Rand, tier string) {
@@ -961,6 +1110,9 @@ func c16TieSuite(r *Result, rng *rand.Rand, tier string) {
 		}
 		// a short history on the same database: every step starts from the table the previous one left
 		for step, steps := 0, 1+rng.Intn(3); step < steps; step++ {
+			for !p.leanable() {
+				p = c16GenLogicalOn(rng, true, p.Soft, p.Rows)
+			}
 			real := e.runReal(p)
 			r.Case("tie", p.key(), p.collides())
 			r.H("tie.finisher", p.Fin.K)
@@ -1002,11 +1154,16 @@ func c16Branch(p *C16P) string {
 			return p.Fin.K + "/live-update-all"
 		}
 		return p.Fin.K + "/soft-deleted-upsert-updates"
+	case "cmap", "cmaps", "cslice", "sslice":
+		return c16PartialBranch(p)
 	case "create":
 		rule := "norule"
 		for _, s := range p.Steps {
 			if s.K == "oc" {
 				rule = s.Rule.Kind
+			}
+			if s.K == "select" || s.K == "omit" {
+				return c16PartialBranch(p)
 			}
 		}
 		k := p.Fin.Row[0]
@@ -1133,45 +1290,124 @@ func (t *c16Ref) dump() [][]int {
 	return out
 }
 
-// the row a fresh insert of v produces
-func (t *c16Ref) fresh(v []int) []int {
-	r := append([]int(nil), v...)
-	if r[c16ID] == 0 {
-		r[c16ID] = t.nextKey()
+// c16Ins describes which columns an INSERT lists and how the value was supplied.
+//   struct (mapSrc=false): every column, except that id / rank / note (database-side defaults) are listed only when
+//     non-zero; Select(cols…) restricts to the named columns (the tracked times stay unless omitted); Omit(cols…)
+//     removes the named ones; zero `code` gets the client default, zero tracked times get NOW.
+//   map (mapSrc=true): exactly the map's keys, values as given.
+type c16Ins struct {
+	mapSrc bool
+	cols   []int // map keys
+	sel    []int
+	omit   []int
+}
+
+func c16Has(l []int, c int) bool {
+	for _, x := range l {
+		if x == c {
+			return true
+		}
 	}
-	if r[c16Code] == 0 {
-		r[c16Code] = 7
+	return false
+}
+
+// allowed: 1 = explicitly selected, 0 = explicitly omitted, -1 = not mentioned
+func (i *c16Ins) mention(c int) int {
+	if c16Has(i.omit, c) {
+		return 0
 	}
-	if r[c16Rank] == 0 {
-		r[c16Rank] = 8
+	if c16Has(i.sel, c) {
+		return 1
+	}
+	return -1
+}
+
+// listed = column c is in the INSERT's column list for value v
+func (i *c16Ins) listed(v []int, c int) bool {
+	if i.mapSrc {
+		return c16Has(i.cols, c)
+	}
+	m, restricted := i.mention(c), len(i.sel) > 0
+	switch c {
+	case c16ID, c16Rank, c16Note:
+		return (m == 1 || (m == -1 && !restricted)) && v[c] != 0
+	case c16Created, c16Updated:
+		return m != 0
+	}
+	return m == 1 || (m == -1 && !restricted)
+}
+
+// updatable = UpdateAll may assign the column (it must ALSO be listed in the INSERT)
+func (i *c16Ins) updatable(c int) bool {
+	if c == c16ID || c == c16Rank || c == c16Created {
+		return false // primary key, default from the database, auto-create time
+	}
+	if i.mapSrc {
+		return true
+	}
+	m := i.mention(c)
+	return m == 1 || (m == -1 && len(i.sel) == 0)
+}
+
+// the row a fresh insert of v produces (= excluded.* on conflict)
+func (t *c16Ref) fresh(v []int, ins *c16Ins) []int {
+	r := make([]int, len(v))
+	for c := range v {
+		if ins.listed(v, c) {
+			r[c] = v[c]
+			if !ins.mapSrc && c == c16Code && r[c] == 0 {
+				r[c] = 7
+			}
+			continue
+		}
+		switch c { // database-side defaults of the columns the INSERT leaves out
+		case c16ID:
+			r[c] = t.nextKey()
+		case c16Code:
+			r[c] = 7
+		case c16Rank:
+			r[c] = 8
+		}
 	}
 	return r
 }
 
+var c16StructAll = &c16Ins{}
+
 // insert with optional rule; returns (record, error class)
-func (t *c16Ref) create(v []int, rule *C16R) ([]int, string) {
-	f := t.fresh(v)
+func (t *c16Ref) create(v []int, rule *C16R) ([]int, string) { return t.createIns(v, c16StructAll, rule) }
+
+func (t *c16Ref) createIns(v []int, ins *c16Ins, rule *C16R) ([]int, string) {
+	f := t.fresh(v, ins)
+	rec := append([]int(nil), v...) // the caller's struct afterwards (struct source only)
+	if !ins.mapSrc && ins.listed(v, c16Code) && rec[c16Code] == 0 {
+		rec[c16Code] = 7
+	}
+	back := func(row []int) { rec[c16ID], rec[c16Rank], rec[c16Note] = row[c16ID], row[c16Rank], row[c16Note] }
 	old, exists := t.rows[f[0]]
 	if !exists {
 		t.rows[f[0]] = f
-		return f, "ok"
+		back(f)
+		return rec, "ok"
 	}
 	if rule == nil {
 		return nil, "unique"
-	}
-	rec := append([]int(nil), v...)
-	if rec[c16Code] == 0 {
-		rec[c16Code] = 7
 	}
 	switch rule.Kind {
 	case "nothing":
 		return rec, "ok"
 	case "all":
+		// every column of the INSERT except primary key, database-default columns and the auto-create time;
+		// a column the INSERT does not list keeps its stored value
+		any := false
 		for c := 1; c < len(old); c++ {
-			if c == c16Rank || c == c16Created {
-				continue
+			if ins.listed(v, c) && ins.updatable(c) {
+				old[c] = f[c]
+				any = true
 			}
-			old[c] = f[c]
+		}
+		if !any {
+			return rec, "ok" // nothing assignable: degrades to DO NOTHING
 		}
 	default:
 		for _, a := range rule.Asg {
@@ -1182,7 +1418,7 @@ func (t *c16Ref) create(v []int, rule *C16R) ([]int, string) {
 			}
 		}
 	}
-	rec[c16Rank] = old[c16Rank]
+	back(old)
 	return rec, "ok"
 }
 
@@ -1241,6 +1477,7 @@ func c16RefRun(p *C16P) C16O {
 	var e c16Eqs
 	var attrs, assigns *C16I
 	var rule *C16R
+	ins := &c16Ins{}
 	for i := range p.Steps {
 		s := &p.Steps[i]
 		switch s.K {
@@ -1252,16 +1489,43 @@ func c16RefRun(p *C16P) C16O {
 			assigns = s.Init
 		case "oc":
 			rule = s.Rule
+		case "select": // the last Select / Omit call counts
+			ins.sel = s.Cols
+		case "omit":
+			ins.omit = s.Cols
 		}
 	}
 	var rec []int
 	errc := "ok"
 	wasHit := false
+	// several rows in one statement: row by row, and a failing row undoes the whole statement
+	many := func(rows [][]int, in *c16Ins, rl *C16R) {
+		snap := c16NewRef(p.Soft, t.dump())
+		for _, row := range rows {
+			if _, errc = t.createIns(row, in, rl); errc != "ok" {
+				t.rows = snap.rows
+				return
+			}
+		}
+	}
 	switch p.Fin.K {
 	case "save", "save2":
 		rec, errc = t.save(p.Fin.Row)
 	case "create":
-		rec, errc = t.create(p.Fin.Row, rule)
+		rec, errc = t.createIns(p.Fin.Row, ins, rule)
+	case "cmap":
+		_, errc = t.createIns(p.Fin.Row, &c16Ins{mapSrc: true, cols: p.Fin.Cols}, rule)
+	case "cmaps":
+		many(p.Fin.Many, &c16Ins{mapSrc: true, cols: p.Fin.Cols}, rule)
+	case "cslice":
+		many(p.Fin.Many, ins, rule)
+	case "sslice":
+		// Save of a slice = upsert of every element with UpdateAll (unless the chain carries its own rule)
+		rl := rule
+		if rl == nil {
+			rl = &C16R{Kind: "all"}
+		}
+		many(p.Fin.Many, ins, rl)
 	default:
 		if p.Fault {
 			// the lookup itself failed: the error is reported and nothing is written (creating a record
